@@ -184,6 +184,31 @@ func nilTest(cond ssa.Value) (ssa.Value, int, bool) {
 		}
 		break
 	}
+	if call, isCall := cond.(*ssa.Call); isCall {
+		// an emptiness predicate: a small boolean method that is false only if some wire pointer is non-nil
+		if x, ok := predicateNilTarget(call); ok {
+			nilSucc := 0
+			if neg {
+				nilSucc = 1
+			}
+			return x, nilSucc, true
+		}
+		return nil, 0, false
+	}
+	if ld, isLd := cond.(*ssa.UnOp); isLd && ld.Op == token.MUL && curProg != nil {
+		// a cached flag of the derived-constants record with one defining nil comparison
+		if _, fv, fa := fieldOfAddr(ld.X); fa != nil && isBoolType(ld.Type()) {
+			if def, ok := derivedFlagDefsSSA(curProg)[fv.Name()]; ok {
+				if x, nilSucc, ok := nilTest(def); ok {
+					if neg {
+						nilSucc = 1 - nilSucc
+					}
+					return x, nilSucc, true
+				}
+			}
+		}
+		return nil, 0, false
+	}
 	b, ok := cond.(*ssa.BinOp)
 	if !ok || (b.Op != token.EQL && b.Op != token.NEQ) {
 		return nil, 0, false
@@ -225,4 +250,112 @@ func takesTrie(f *ssa.Function) bool {
 func blockPostDominatesEntry(f *ssa.Function, b *ssa.BasicBlock) bool {
 	d, _ := postDom(f, nil)
 	return d.pdom[0][b.Index]
+}
+
+// derivedFlagDefsSSA: bool fields of the derived-constants record (the struct holding ShortMask) that
+// have exactly one store in package trie, of a comparison: field name -> that comparison.
+func derivedFlagDefsSSA(p *Program) map[string]*ssa.BinOp {
+	out := map[string]*ssa.BinOp{}
+	count := map[string]int{}
+	for _, f := range p.FuncsOf(triePath) {
+		if f.Synthetic != "" {
+			continue
+		}
+		instrsOf(f, func(_ *ssa.BasicBlock, in ssa.Instruction) {
+			st, ok := in.(*ssa.Store)
+			if !ok || !isBoolType(st.Val.Type()) {
+				return
+			}
+			stt, fv, fa := fieldOfAddr(st.Addr)
+			if fa == nil || stt == nil {
+				return
+			}
+			hasMask := false
+			for i := 0; i < stt.NumFields(); i++ {
+				if stt.Field(i).Name() == "ShortMask" {
+					hasMask = true
+				}
+			}
+			if !hasMask {
+				return
+			}
+			count[fv.Name()]++
+			if bo, ok := st.Val.(*ssa.BinOp); ok {
+				out[fv.Name()] = bo
+			}
+		})
+	}
+	for n, c := range count {
+		if c != 1 {
+			delete(out, n)
+		}
+	}
+	return out
+}
+
+// predicateNilTarget: call is a call of a loop-free boolean function of package trie whose result is
+// true on every path unless some wire pointer X is non-nil ("func (st) isEmpty() bool { return st.vars ==
+// nil || st.vars.Empty }" with Empty defined once as NodeTypeBM == nil): returns a value that denotes X.
+// The false result then establishes X != nil, which is what a guard needs.
+func predicateNilTarget(call *ssa.Call) (ssa.Value, bool) {
+	h := calleeOf(call)
+	if h == nil || curProg == nil || !trieScope(h) || len(h.Blocks) == 0 || len(h.Blocks) > 6 || hasLoop(h) {
+		return nil, false
+	}
+	if rs := h.Signature.Results(); rs.Len() != 1 || !isBoolType(rs.At(0).Type()) {
+		return nil, false
+	}
+	defs := derivedFlagDefsSSA(curProg)
+	var target ssa.Value
+	okAll := true
+	var leaf func(v ssa.Value, d int)
+	leaf = func(v ssa.Value, d int) {
+		if d > 4 || !okAll {
+			okAll = false
+			return
+		}
+		switch x := v.(type) {
+		case *ssa.Const:
+			if b, ok := constBool(x); !ok || !b {
+				okAll = false // "false" without knowing anything about the pointer
+			}
+		case *ssa.Phi:
+			for _, ed := range x.Edges {
+				leaf(ed, d+1)
+			}
+		case *ssa.BinOp:
+			// X == nil
+			t, nilSucc, ok := nilTest(x)
+			if !ok || nilSucc != 0 {
+				okAll = false
+				return
+			}
+			if target != nil && wirePathOf(target) != wirePathOf(t) {
+				okAll = false
+				return
+			}
+			target = t
+		case *ssa.UnOp:
+			if x.Op == token.NOT {
+				okAll = false
+				return
+			}
+			if _, fv, fa := fieldOfAddr(x.X); fa != nil && x.Op == token.MUL {
+				if def, ok := defs[fv.Name()]; ok {
+					leaf(def, d+1)
+					return
+				}
+			}
+			okAll = false
+		default:
+			okAll = false
+		}
+	}
+	for _, ret := range returnsOf(h) {
+		leaf(ret.Results[0], 0)
+	}
+	if !okAll || target == nil || wirePathOf(target) == "" {
+		return nil, false
+	}
+	return target, true
 }
